@@ -111,6 +111,120 @@ def _first_diff(a, b):
     return None
 
 
+def _tmpl_shared_key_actors(engine):
+    """Two children spawned from one service without explicit ids (their ids end in a uuid4), then
+    addressed by the bare service key: who - if anybody - receives the message must not depend on
+    the generated ids.  Trace = which child (by spawn order) received how many messages."""
+    import asyncio
+    from ..observe import Interpreter, MachineLogic, SyncInterpreter, create_machine, drain, run_virtual
+    got = []
+    order = []
+
+    def born(i, c, e, a):
+        order.append(id(i))
+
+    def recv(i, c, e, a):
+        got.append(order.index(id(i)) if id(i) in order else -1)
+    kid = create_machine({"id": "kid", "initial": "a", "states": {"a": {"entry": ["born"], "on": {
+        "MSG": {"actions": ["recv"]}}}}}, logic=MachineLogic(actions={"born": born, "recv": recv}))
+    cfg = {"id": "p", "initial": "s", "states": {"s": {"on": {
+        "SPAWN": {"actions": [{"type": "spawn_kid"}]},
+        "TELL": {"actions": [{"type": "xstate.sendTo", "params": {"to": "kid", "event": "MSG"}}]},
+        "FWD": {"actions": [{"type": "xstate.forwardTo", "params": {"to": "kid"}}]},
+        "MSG": {}}}}}
+    machine = create_machine(cfg, logic=MachineLogic(services={"kid": kid}))
+    script = ["SPAWN", "TELL", "SPAWN", "TELL", "FWD", "SPAWN", "TELL"]
+    if engine == "sync":
+        import time
+        it = SyncInterpreter(machine).start()
+        for ev in script:
+            it.send(ev)
+            t0 = time.time()
+            while time.time() - t0 < 2.0 and (len(order) < sum(1 for x in script[:script.index(ev) + 1]
+                                                               if x == "SPAWN") and ev == "SPAWN"):
+                time.sleep(0.002)
+            time.sleep(0.004)
+        it.stop()
+    else:
+        async def body():
+            it = Interpreter(machine)
+            await it.start()
+            for ev in script:
+                await it.send(ev)
+                await drain(it)
+                for a in list(it._actors.values()):
+                    await drain(a)
+            await it.stop()
+        run_virtual(body)
+    return [["recv", sorted(got)], ["n", len(order)]]
+
+
+def _tmpl_rollback_rearm_order(engine):
+    """A transition leaving a parallel state with a service in each of four regions fails (missing
+    entry action in its target) and is rolled back: the services are invoked again - in an order
+    that must be the same in every build and process.  Trace = order of the service calls."""
+    import asyncio
+    from ..observe import Interpreter, MachineLogic, SyncInterpreter, create_machine, drain, run_virtual
+    calls = []
+
+    def mk(n):
+        def svc(i, c, e):
+            calls.append(n)
+            return n
+        return svc
+    regions = {"r%d" % k: {"invoke": {"src": "svc%d" % k, "id": "inv%d" % k},
+                           "after": {"900000": {"actions": []}}} for k in (3, 1, 4, 2)}
+    cfg = {"id": "m", "initial": "par", "states": {
+        "par": {"type": "parallel", "states": regions, "on": {"OUT": "bad"}},
+        "bad": {"entry": ["not_implemented_anywhere"]}}}
+    machine = create_machine(cfg, logic=MachineLogic(services={"svc%d" % k: mk(k) for k in (1, 2, 3, 4)}))
+    if engine == "sync":
+        it = SyncInterpreter(machine).start()
+        del calls[:]
+        try:
+            it.send("OUT")
+        except Exception:  # noqa: BLE001
+            pass
+        it.stop()
+    else:
+        async def body():
+            it = Interpreter(machine)
+            await it.start()
+            await drain(it)
+            await asyncio.sleep(0.001)
+            del calls[:]
+            await it.send("OUT")
+            await drain(it)
+            await asyncio.sleep(0.001)
+            await it.stop()
+        run_virtual(body)
+    return [["calls", list(calls)]]
+
+
+TEMPLATES = {"shared-key-actors": _tmpl_shared_key_actors, "rollback-rearm-order": _tmpl_rollback_rearm_order}
+
+
+def run_templates(res, traces):
+    for name, fn in sorted(TEMPLATES.items()):
+        for engine in ("sync", "async"):
+            ref = None
+            junk = []
+            for rep in range(8):
+                junk.append([object() for _ in range(37 + 211 * rep)])      # move the heap
+                t = fn(engine)
+                res.evaluations += 1
+                res.count("templates.%s.%s" % (name, engine))
+                res.hashes.add(h([name, engine, rep]))
+                if ref is None:
+                    ref = t
+                    traces["T:%s:%s" % (name, engine)] = t
+                elif t != ref:
+                    res.violation("C16:template-rebuild-differs/%s/%s" % (name, engine),
+                                  "two runs of the same program in one process differ: %s vs %s" % (ref, t),
+                                  {"template": name, "engine": engine, "first": ref, "other": t})
+                    break
+
+
 def run_chunk(spec):
     observe.quiet_logs()
     res = Result()
@@ -174,6 +288,9 @@ def run_chunk(spec):
                           {"events": events, "plan": case.plan, "step": d[1]}, case={"idx": idx})
         if idx % 1000 == 0 and spec.get("hashseed") == "0":
             res.sample({"events": events[:6], "steps": len(t0), "machine": plan_summary(case)})
+    if spec["chunk"] == 0 and not only:
+        wd.arm("templates")
+        run_templates(res, traces)
     wd.disarm()
     out = res.to_json()
     out["traces"] = traces
@@ -194,6 +311,15 @@ def post(specs, results):
                 if idx not in ref:
                     continue
                 counters["compared.across-hashseeds"] += 1
+                if idx.startswith("T:"):
+                    if ref[idx] != t:
+                        violations.append({
+                            "key": "C16:hashseed:template/%s" % idx[2:].replace(":", "/"),
+                            "what": "PYTHONHASHSEED=%s and =%s give different traces for the template: %s vs %s" % (
+                                ref_spec["hashseed"], spec["hashseed"], ref[idx], t),
+                            "witness": {"hashseeds": [ref_spec["hashseed"], spec["hashseed"]], "template": idx},
+                            "case": {"template": idx}, "spec": spec})
+                    continue
                 d = _first_diff(ref[idx], t)
                 if d is not None:
                     violations.append({
@@ -209,7 +335,8 @@ def post(specs, results):
 def quota(counters, tier):
     out = []
     for k in ("compared.across-hashseeds", "compared.in-process-rebuild", "compared.sync-vs-async",
-              "compared.pure-rebuild", "cases.shared-local-names",
+              "compared.pure-rebuild", "cases.shared-local-names", "templates.shared-key-actors.sync",
+              "templates.rollback-rearm-order.async",
               "cases.wide-region-transition", "cases.deep-history-restore-multi-leaf"):
         if counters.get(k, 0) == 0:
             out.append("monitor-never-reached:" + k)
